@@ -23,7 +23,7 @@ from rdflib.namespace import RDF, RDFS, XSD
 import shapegen
 import vcase
 import wire
-from common import CLASSES, EX, NODES, PREDS, SH, graph_from_triples
+from common import CLASSES, EX, NODES, PREDS, SH, Hang, graph_from_triples, time_limit
 from props import c18
 
 FORMATS = {"turtle": "ttl", "nt": "nt", "xml": "rdf", "json-ld": "json"}
@@ -78,7 +78,54 @@ def forms(tmp, tag, text, fmt, stated):
     out = [("path", lambda: path), ("file-uri", lambda: "file://" + path),
            ("open-binary", lambda: open(path, "rb")), ("open-text", lambda: open(path, "r", encoding="utf-8")),
            ("str", lambda: text), ("bytes", lambda: text.encode("utf-8"))]
+
+    # open file objects the caller has just used: a buffer it wrote the document into, a handle it has read to the end
+    def written_buffer():
+        b = io.BytesIO()
+        b.write(text.encode("utf-8"))
+        return b
+
+    def read_handle():
+        f = open(path, "rb")
+        f.read()
+        return f
+    out += [("open-binary-written", written_buffer), ("open-binary-read", read_handle)]
     return out
+
+
+def rewritten_file_cases(tmp, out):
+    """the same path handed over twice, the file rewritten in between with a document of the same byte length (same second, mtime
+    restored): the second report must be that of the file's current content, for the data and for the shapes argument"""
+    shapes = lambda bound: ("@prefix sh: <http://www.w3.org/ns/shacl#> .\n@prefix ex: <http://ex.test/> .\n"
+                            "ex:S a sh:NodeShape ; sh:targetSubjectsOf ex:p ; sh:property [ sh:path ex:p ; sh:maxInclusive %d ] .\n" % bound)
+    data = lambda v: "<http://ex.test/a> <http://ex.test/p> \"%d\"^^<http://www.w3.org/2001/XMLSchema#integer> .\n" % v
+    for arg, first, second, fixed in (("data", data(17), data(71), shapes(50)), ("shapes", shapes(17), shapes(71), data(50))):
+        for ext, uri in (("nt" if arg == "data" else "ttl", False), ("nt" if arg == "data" else "ttl", True)):
+            path = os.path.join(tmp, "rewrite_%s_%d.%s" % (arg, uri, ext))
+            src = ("file://" + path) if uri else path
+            fixed_g = Graph().parse(data=fixed, format="turtle")
+            outs = []
+            for doc in (first, second):
+                st = os.stat(path) if os.path.exists(path) else None
+                with open(path, "w", encoding="utf-8") as f:
+                    f.write(doc)
+                if st is not None:
+                    os.utime(path, ns=(st.st_atime_ns, st.st_mtime_ns))
+                doc_g = Graph().parse(data=doc, format="turtle")
+                kw_a = {"shacl_graph": fixed_g} if arg == "data" else {"shacl_graph": src}
+                kw_b = {"shacl_graph": fixed_g} if arg == "data" else {"shacl_graph": doc_g}
+                got = pyshacl.validate(src if arg == "data" else fixed_g, **kw_a)
+                want = pyshacl.validate(doc_g if arg == "data" else fixed_g, **kw_b)
+                outs.append((got[0], want[0], len(list(got[1].subjects(RDF.type, SH.ValidationResult))), len(list(want[1].subjects(RDF.type, SH.ValidationResult)))))
+            out.evaluations += 2
+            out.count("form:rewritten-" + ("file-uri" if uri else "path"))
+            for step, (gc, wc, gn, wn) in enumerate(outs):
+                if gc != wc or gn != wn:
+                    out.b_fail.append({"signature": "C20:stale-file-content:%s:%s" % (arg, "file-uri" if uri else "path"),
+                                       "case": {"argument": arg, "step": step, "first_document": first, "second_document": second, "other_graph": fixed},
+                                       "path_form": [gc, gn], "graph_object": [wc, wn]})
+            if outs[0][2] != outs[1][2]:
+                out.nontrivial.add("rewrite:%s:%d" % (arg, uri))
 
 
 def detectable_inline(text, fmt):
@@ -112,7 +159,10 @@ def code_kind(src, cwd, marker):
     os.chdir(cwd)
     try:
         try:
-            g = load_from_source(src)
+            with time_limit(20):
+                g = load_from_source(src)
+        except Hang:
+            return "raw:Hang"
         except (FileNotFoundError, IsADirectoryError, NotADirectoryError, PermissionError):
             return "file"
         except OSError as e:
@@ -185,6 +235,8 @@ def run(ctx, out):
         cases.insert(0, (tiny_s, tiny_d, Graph()))
         tiny_d2 = Graph(); tiny_d2.add((NODES[0], PREDS[0], Literal("v")))
         cases.insert(1, (tiny_s, tiny_d2, Graph()))
+        # the empty graph: its Turtle / N-Triples documents are blank
+        cases.insert(2, (tiny_s, Graph(), Graph()))
         for ci, (sg, dg, og) in enumerate(cases):
             try:
                 ref = vcase.run_code(sg, dg, {"ont_graph": og} if len(og) else {})
@@ -201,7 +253,7 @@ def run(ctx, out):
                     text = serialise(g, fmt, header=True)
                     for stated in (True, False):
                         for fname, make in forms(tmp, "c%d_%s_%s" % (ci, arg, fmt), text, fmt, stated):
-                            if not stated and fname in ("str", "bytes") and not detectable_inline(text, fmt):
+                            if not stated and fname in ("str", "bytes", "open-binary-written") and not detectable_inline(text, fmt):
                                 continue
                             if not stated and fname in ("str", "bytes") and fmt == "nt" and ci > 1 and rng.random() < 0.5:
                                 continue
@@ -221,7 +273,8 @@ def run(ctx, out):
                             else:
                                 a_og = src
                             try:
-                                conforms, rg, _t = pyshacl.validate(a_dg, shacl_graph=a_sg, ont_graph=a_og, **kw)
+                                with time_limit(30):
+                                    conforms, rg, _t = pyshacl.validate(a_dg, shacl_graph=a_sg, ont_graph=a_og, **kw)
                                 got = ("ok", conforms, report_key(rg, sg) if isinstance(rg, Graph) else None)
                             except Exception as e:  # noqa
                                 got = ("err", type(e).__name__, str(e)[:120])
@@ -246,6 +299,7 @@ def run(ctx, out):
                             out.count("form:" + fname)
                             out.count("format:%s:%s" % (fmt, "stated" if stated else "auto"))
             out.sample({"case": ci, "results": len(ref[2]), "triples": [len(dg), len(sg), len(og)]})
+        rewritten_file_cases(tmp, out)
         # ── (A) classification of str / bytes sources, and the sniff / extension tables ─────────────────────────────
         scratch = os.path.join(tmp, "cwd")
         os.makedirs(os.path.join(scratch, "dir"))
@@ -286,7 +340,8 @@ def run(ctx, out):
             model = rep["s%d" % n].split()[1]
             body = {"turtle": l + "\n<urn:a> <urn:b> <urn:c> .\n", "xml": l}.get(model)
             try:
-                load_from_source(io.BytesIO(("\n  " + l + "\n").encode()))
+                with time_limit(20):
+                    load_from_source(io.BytesIO(("\n  " + l + "\n").encode()))
                 got = "parsed"
             except RuntimeError as e:
                 got = "html" if "HTML" in str(e) else "runtime"
